@@ -559,8 +559,17 @@ class CompilerPassGenerateCode(CompilerPass):
                 data.result = sym_data
             elif isinstance(value, (IC10Register, IC10Operand)):
                 sym_data = self.data.get_sym_data(target)
-                can_assign_directly = not sym_data.is_overwritten
+                # the name can stand for the value itself only if neither of the
+                # two is assigned again
+                can_assign_directly = not sym_data.is_overwritten and not (
+                    isinstance(value, IC10Register) and value.is_overwritten
+                )
                 if can_assign_directly:
+                    if isinstance(value, IC10Register):
+                        # the shared register stays in use as long as the new name is
+                        value.nodes_alias.extend(
+                            sym_data.nodes_reading + sym_data.nodes_writing
+                        )
                     sym_data.code_expr = (
                         value.code_expr
                         if isinstance(value, IC10Register)
